@@ -41,36 +41,50 @@ theorem mem_reported (c : Curve.Curve) (ss : List Stmt) (v : String) :
           simp [this]
         · simp [hw]
 
-/-- a component counts as `Num2Bits` with size expression `t` only if every recorded instantiation that may be this component is a
-    `Num2Bits` with that size expression: an element of a component array whose index is not known, a component instantiated on
-    two branches, a component that is another template somewhere — none of them is tracked unless all candidates agree -/
-theorem getComponent_num2bits (cs : List (Key × Inst)) (k : Key) (s : Option Nat) (t : String)
-    (h : getComponent cs k = some (.num2bits s t)) :
-    ∀ e, e ∈ cs → maybeEqual e.1 k = true → ∃ s', e.2 = .num2bits s' t := by
-  unfold getComponent at h
-  intro e he hm
-  have hmem : e ∈ cs.filter (fun e => maybeEqual e.1 k) := List.mem_filter.mpr ⟨he, hm⟩
-  cases hf : cs.filter (fun e => maybeEqual e.1 k) with
-  | nil => rw [hf] at hmem; cases hmem
-  | cons e0 rest =>
-    rw [hf] at h hmem
-    simp only at h
-    split at h
-    · rename_i hall
-      simp only [Option.some.injEq] at h
-      rcases List.mem_cons.mp hmem with h1 | h1
-      · subst h1; exact ⟨s, h⟩
-      · have := List.all_eq_true.mp hall e h1
-        rw [h] at this
-        cases he2 : e.2 with
-        | lessThan => rw [he2] at this; simp [sameAs] at this
-        | unknown => rw [he2] at this; simp [sameAs] at this
-        | num2bits s' t' =>
-          rw [he2] at this
-          simp only [sameAs, beq_iff_eq] at this
-          subst this
-          exact ⟨s', rfl⟩
-    · simp at h
+/-- the candidates are the instantiations recorded for a component that may be the one the access refers to -/
+theorem mem_candidates (cs : List (Key × Inst)) (k : Key) (t : Inst) :
+    t ∈ candidates cs k ↔ ∃ e, e ∈ cs ∧ maybeEqual e.1 k = true ∧ e.2 = t := by
+  unfold candidates
+  simp only [List.mem_map, List.mem_filter]
+  constructor
+  · rintro ⟨e, ⟨he, hm⟩, rfl⟩; exact ⟨e, he, hm, rfl⟩
+  · rintro ⟨e, he, hm, rfl⟩; exact ⟨e, ⟨he, hm⟩, rfl⟩
+
+/-- a component counts as `Num2Bits` of a size only if there is an instantiation and every instantiation that may be this component
+    is a `Num2Bits` with that size expression: an element of a component array whose index is not known, a component instantiated
+    on two branches, a component that is another template somewhere — none of them counts unless all candidates agree -/
+theorem bitSize_some (is : List Inst) (s : Option Nat) (h : bitSize is = some s) :
+    is ≠ [] ∧ ∃ t, ∀ x, x ∈ is → ∃ s', x = .num2bits s' t := by
+  cases is with
+  | nil => simp [bitSize] at h
+  | cons a rest =>
+    refine ⟨by simp, ?_⟩
+    cases a with
+    | lessThan => simp [bitSize] at h
+    | unknown => simp [bitSize] at h
+    | num2bits s0 t0 =>
+      simp only [bitSize] at h
+      split at h
+      · rename_i hall
+        refine ⟨t0, ?_⟩
+        intro x hx
+        rcases List.mem_cons.mp hx with h1 | h1
+        · exact ⟨s0, h1⟩
+        · have := List.all_eq_true.mp hall x h1
+          cases x with
+          | lessThan => simp [sameSize] at this
+          | unknown => simp [sameSize] at this
+          | num2bits s' t' =>
+            simp only [sameSize, beq_iff_eq] at this
+            subst this
+            exact ⟨s', rfl⟩
+      · cases h
+
+/-- the inputs of a component are examined as inputs of `LessThan` as soon as one instantiation that may be this component is a
+    `LessThan` -/
+theorem mayBeLessThan_iff (is : List Inst) : mayBeLessThan is = true ↔ Inst.lessThan ∈ is := by
+  unfold mayBeLessThan
+  simp [List.any_eq_true]
 
 theorem zip_self_alias : ∀ (l : List Acc) (p : Acc × Acc), p ∈ l.zip l → accAlias p.1 p.2 = true
   | [], p, hp => by simp at hp
